@@ -277,6 +277,26 @@ pub fn run(ctx: &Ctx) {
     }, check_valid);
 
     ctx.exhaustive(
+        "lengths_above_size_thresholds",
+        "each mode at T + 16 b + r bytes for T in {4096, 65536, 131072}, b = 0..=8 whole blocks (every residue of an unroll / lane factor up to 8) and r in {0, 1, 15}: bulk paths that only large inputs take",
+        || {
+            let mut v = Vec::new();
+            for t in [4096usize, 65536, 131072] {
+                for b in 0..=8usize {
+                    for r in [0usize, 1, 15] {
+                        let len = t + 16 * b + r;
+                        for mode in 0..4u8 {
+                            v.push(MC { mode, key: Hex(expand_bytes(len as u64 ^ 0x7a1, 16)), iv: Hex(expand_bytes(len as u64 ^ 0x7a2, 16)), data: Hex(expand_bytes(len as u64 ^ 0x7a3, len)) });
+                        }
+                    }
+                }
+            }
+            v
+        },
+        check_valid,
+    );
+
+    ctx.exhaustive(
         "cbc_valid_ciphertext_plus_or_minus_bytes",
         "valid CBC ciphertexts (reference-made, plaintexts of 0..=47 bytes incl. ones whose block-final bytes are 0x01..0x10) with 1..=15 bytes appended, and cut by 1..=15 bytes inside the last block: neither length is a multiple of 16, so both must be rejected; the untouched ciphertext must decrypt",
         || {
